@@ -3,6 +3,7 @@ package main
 import (
 	"fmt"
 	"go/token"
+	"go/types"
 	"sort"
 	"strings"
 
@@ -19,10 +20,10 @@ func checkC18(p *Program, r *Report) {
 	r.Explanation = "Decided for every trie: (identity) at every construction site of a level record the leaf count is, as a normalised term, total - inner (or all three are the constant 0), so every entry satisfies total = inner + leaf, including the (0,0) report of the empty trie; (mapping) Stat copies (total, inner, leaf) of each record to (Total, Inner, Leaf) in this order, NodeCnt/KeyCnt are total/leaf of the last record and KeyCnt is 0 when the node-type bitmap is absent; (inclusive) every rank query made at the last position of a bitmap (64*len(words)-1) uses both the rank and the bit of that position, so the last one bit is counted; (siblings) the level walk locates the first child with the same inner-node offset polynomial as the query path (shared with C01.layout)."
 	r.NotCovered = "That KeyCnt equals the number of retained keys and that level totals are monotone (values of rank queries at run time)."
 	r.Trusted = []string{"go/ssa", "openacid/low/bitmap.Rank64/Rank128 inlined symbolically"}
-	li := p.NamedType(p.Trie, "levelInfo")
+	li := levelRecordType(p)
 	r.Rule("C18.identity", "E6", "every level record is built with leaf = total - inner", 3)
 	if li == nil {
-		r.Unk("trie.levelInfo", "", "anchor not found")
+		r.Unk("level record type", "", "Stat reads no slice of records from the trie (anchor not found)")
 		return
 	}
 	type site struct {
@@ -41,7 +42,7 @@ func checkC18(p *Program, r *Report) {
 				return
 			}
 			_, fv, fa := fieldOfAddr(st.Addr)
-			if fa == nil || !isNamed(fa.X.Type(), triePath, "levelInfo") {
+			if fa == nil || namedOf(fa.X.Type()) != li {
 				return
 			}
 			s := byBase[fa.X]
@@ -268,3 +269,41 @@ func checkC18(p *Program, r *Report) {
 }
 
 func init() { checks["C18"] = checkC18 }
+
+// levelRecordType: the element type of the slice of records Stat reads from
+// the trie (today []levelInfo in SlimTrie.levels), identified by use.
+func levelRecordType(p *Program) *types.Named {
+	stat := p.Method(p.Trie, "SlimTrie", "Stat")
+	if stat == nil {
+		return p.NamedType(p.Trie, "levelInfo")
+	}
+	var out *types.Named
+	for f := range trieReach(stat) {
+		if !trieScope(f) {
+			continue
+		}
+		instrsOf(f, func(_ *ssa.BasicBlock, in ssa.Instruction) {
+			ld, ok := in.(*ssa.UnOp)
+			if !ok || ld.Op != token.MUL {
+				return
+			}
+			_, _, fa := fieldOfAddr(ld.X)
+			if fa == nil || !isNamed(fa.X.Type(), triePath, "SlimTrie") {
+				return
+			}
+			sl, ok := ld.Type().Underlying().(*types.Slice)
+			if !ok {
+				return
+			}
+			if n, ok := sl.Elem().(*types.Named); ok && n.Obj().Pkg() != nil && n.Obj().Pkg().Path() == triePath {
+				if _, isStruct := n.Underlying().(*types.Struct); isStruct {
+					out = n
+				}
+			}
+		})
+	}
+	if out == nil {
+		return p.NamedType(p.Trie, "levelInfo")
+	}
+	return out
+}
